@@ -692,6 +692,193 @@ def limit_facts(facts):
         cs = limit_checks(src, fn, sql_val if name.startswith("sql") else mem_lib, field_consts, rp)
         facts[name] = ("List (Nat × Nat × Bool)", "[" + ", ".join(f"({q}, {v}, {lean_bool(b)})" for q, v, b in cs) + "]",
                        f"{rel} {fn}: the refusals `if <expr>.len() > <limit> {{ return Err` before the write, as (quantity, limit, limit itself accepted); quantity codes in tools/gen_model.py LIMIT_QUANTITIES")
+# ---- C05 identity sentence (Model.Identity.codeShape) ---------------------------------------------------------------
+def _block_after(text, pos):
+    """the `{…}` block that starts at the first `{` at or after pos: (start, end) or None"""
+    i = text.find("{", pos)
+    if i < 0:
+        return None
+    e = rsnorm.match_close(text, i, "{", "}")
+    return (i, e) if e > 0 else None
+
+def _propagated(text, call_pos):
+    """is the result of the call at call_pos propagated with `?` (fn_body writes an inlined helper as `call(args){body}`)"""
+    i = text.find("(", call_pos)
+    e = rsnorm.match_close(text, i, "(", ")")
+    if e < 0:
+        return False
+    j = e + 1
+    while j < len(text) and text[j].isspace():
+        j += 1
+    if j < len(text) and text[j] == "{":
+        e2 = rsnorm.match_close(text, j, "{", "}")
+        if e2 < 0:
+            return False
+        j = e2 + 1
+        while j < len(text) and text[j].isspace():
+            j += 1
+    return j < len(text) and text[j] == "?"
+
+def _let_expr(text, name, before):
+    """the expression of the last `let name = …;` in text[:before] (None: no such binding)"""
+    last = None
+    for m in re.finditer(r"\blet\s+(?:mut\s+)?" + re.escape(name) + r"\s*(?::[^=;]+)?=\s*", text[:before]):
+        last = m
+    if not last:
+        return None
+    j, d = last.end(), 0
+    while j < len(text):
+        k = rsnorm.skip_literal(text, j)
+        if k != j:
+            j = k; continue
+        if text[j] in "([{": d += 1
+        elif text[j] in ")]}": d -= 1
+        elif text[j] == ";" and d == 0: break
+        j += 1
+    return text[last.end():j]
+
+def _split_op(expr, op):
+    """expr split at the top-level occurrences of a two-character operator"""
+    parts, d, cur, i = [], 0, [], 0
+    while i < len(expr):
+        k = rsnorm.skip_literal(expr, i)
+        if k != i:
+            cur.append(expr[i:k]); i = k; continue
+        if expr[i] in "([{": d += 1
+        elif expr[i] in ")]}": d -= 1
+        if d == 0 and expr.startswith(op, i):
+            parts.append("".join(cur)); cur = []; i += len(op); continue
+        cur.append(expr[i]); i += 1
+    parts.append("".join(cur))
+    return parts
+
+def _resolve(text, expr, before, depth=5):
+    """expr with every identifier that has a `let` binding in text[:before] replaced by the bound expression (repeatedly)"""
+    for _ in range(depth):
+        changed = False
+        def sub(m):
+            nonlocal changed
+            if m.start() > 0 and expr[m.start() - 1] in ".:":
+                return m.group(0)
+            ex = _let_expr(text, m.group(0), before)
+            if ex is None or len(ex) > 4000:
+                return m.group(0)
+            changed = True
+            return "(" + ex.strip() + ")"
+        expr = re.sub(r"\b[a-z_]\w*\b(?!\s*[(:!])", sub, expr)
+        if not changed:
+            break
+    return expr
+
+def _identity_comparison(block, new_source_re):
+    """does `block` refuse — `return Err(…IdentityChangeNotAllowed…)`, propagated to the caller — exactly when two values differ
+    that are both results of `parse_credential_identity(<BasicCredential>.identity())`, one read off `member_at(…)` (the stored
+    leaf) and one off `new_source_re` (the proposed leaf node)?"""
+    for m in re.finditer(r"\breturn\s+Err\s*\(\s*(?:\w+\s*::\s*)*IdentityChangeNotAllowed\b", block):
+        gs = rsnorm.guards_of(block, m.start())
+        conds = [g[1] for g in gs if g[0] == "if"]
+        if not conds:
+            continue
+        c = conds[-1].strip()
+        neg = re.fullmatch(r"!\s*\((.*)\)", c, re.S)
+        parts = _split_op(neg.group(1), "==") if neg else _split_op(c, "!=")
+        if len(parts) != 2:
+            continue
+        operands = [_resolve(block, x.strip(), m.start()) for x in parts]
+        # the refusal sits in an inlined helper `callee(args){ … }?`: every enclosing inlined body must be propagated
+        ok = True
+        for im in re.finditer(r"\)\{", block[:m.start()]):          # rsnorm.inline_helpers writes `callee(args){body}` without a blank
+            o = im.start() + 1
+            e = rsnorm.match_close(block, o, "{", "}")
+            if not (o < m.start() < e):
+                continue
+            st = max(block.rfind(";", 0, im.start()), block.rfind("{", 0, im.start()), block.rfind("}", 0, im.start())) + 1
+            if re.match(r"\s*(?:\}\s*else\s+)?(?:if|while|for|match)\b", block[st:im.start()]):
+                continue                                                # a condition written without a blank, not an inlined body
+            j = e + 1
+            while j < len(block) and block[j].isspace():
+                j += 1
+            if not (j < len(block) and block[j] == "?"):
+                ok = False
+        if not ok:
+            continue
+        srcs = []
+        bound = set(re.findall(r"Some\s*\(\s*(\w+)\s*\)\s*=\s*[^;{]*?\bmember_at\s*\(", block))
+        for ex in operands:
+            if not re.search(r"parse_credential_identity\s*\(", ex) or not re.search(r"\.\s*identity\s*\(\s*\)", ex):
+                srcs.append(None); continue
+            if re.search(r"\bmember_at\s*\(", ex) or any(re.search(r"\b" + re.escape(b) + r"\s*\.\s*credential\b", ex) for b in bound):
+                srcs.append("stored")
+            elif re.search(new_source_re, ex):
+                srcs.append("new")
+            else:
+                srcs.append(None)
+        if sorted(x or "" for x in srcs) == ["new", "stored"]:
+            return True
+    return False
+
+def identity_facts(facts, boolean, commit_rs, pcb, prop_rs):
+    val_rs = strip_comments(non_test(read("crates/mdk-core/src/messages/validation.rs")))
+    vci = rsnorm.inline_lets(rsnorm.unify_strings(fn_body(val_rs, "validate_commit_identities", "fn:validate_commit_identities")), max_len=60)
+    staged = param_of_type(val_rs, "validate_commit_identities", r"&\s*(?:\w+\s*::\s*)*StagedCommit", "fn:validate_commit_identities")
+    # which proposals of the staged commit are looked at: 0 add_proposals, 1 remove_proposals, 2 update_proposals, 3 queued_proposals (all), 4 psk_proposals
+    ITER = ["add_proposals", "remove_proposals", "update_proposals", "queued_proposals", "psk_proposals"]
+    kinds = sorted({ITER.index(m.group(1)) for m in re.finditer(r"\b" + staged + r"\s*\.\s*(\w+)\s*\(\s*\)", vci) if m.group(1) in ITER})
+    facts["identInspectedKinds"] = ("List Nat", "[" + ", ".join(map(str, kinds)) + "]",
+        "messages/validation.rs validate_commit_identities: the proposal iterators of the staged commit it reads (0 add_proposals, 1 remove_proposals, 2 update_proposals, 3 queued_proposals, 4 psk_proposals)")
+    up = re.search(r"\bfor\s+(\w+)\s+in\s+" + staged + r"\s*\.\s*update_proposals\s*\(\s*\)", vci)
+    upd_cmp = False
+    if up:
+        b = _block_after(vci, up.end())
+        if b:
+            blk = vci[b[0]:b[1] + 1]
+            cs = calls(blk, r"self\s*\.\s*validate_proposal_identity")
+            if cs:
+                # the per-proposal check is a function of its own (a step the extractor knows by name): it must be propagated, and
+                # its own body must hold the comparison, reached for `Proposal::Update` from a `Sender::Member`
+                if _propagated(blk, cs[0][0]):
+                    vpi = rsnorm.inline_lets(rsnorm.unify_strings(fn_body(val_rs, "validate_proposal_identity", "fn:validate_proposal_identity")), max_len=60)
+                    upd_cmp = _identity_comparison(vpi, r"\bleaf_node\s*\(\s*\)\s*\.\s*credential\s*\(")
+            else:
+                upd_cmp = _identity_comparison(blk, r"\bleaf_node\s*\(\s*\)\s*\.\s*credential\s*\(")
+    boolean("identUpdateCompared", upd_cmp,
+            "messages/validation.rs validate_commit_identities → validate_proposal_identity: for every Update proposal of the staged commit the identity parsed from the proposer's STORED leaf credential (member_at) "
+            "is compared with the identity parsed from the proposal's leaf node credential, and a difference is refused with IdentityChangeNotAllowed (propagated with `?`)")
+    pm = re.search(r"\bif\s+let\s+Some\s*\(\s*(\w+)\s*\)\s*=\s*" + staged + r"\s*\.\s*update_path_leaf_node\s*\(\s*\)", vci)
+    boolean("identPathInspected", bool(pm), "messages/validation.rs validate_commit_identities: reads staged_commit.update_path_leaf_node()")
+    path_cmp = False
+    if pm:
+        b = _block_after(vci, pm.end())
+        if b:
+            path_cmp = _identity_comparison(vci[b[0]:b[1] + 1], r"\b" + re.escape(pm.group(1)) + r"\s*\.\s*credential\s*\(")
+    boolean("identPathCompared", path_cmp,
+            "messages/validation.rs validate_commit_identities: the identity parsed from the COMMITTER's stored leaf credential is compared with the identity parsed from the update path's leaf node credential, "
+            "and a difference is refused with IdentityChangeNotAllowed (propagated with `?`)")
+    # process_commit: the order of the propagated checks and the merge: 0 authorisation, 1 identities, 2 snapshot, 3 merge
+    marks = []
+    for code, callee in [(0, r"self\s*\.\s*validate_commit_authorization"), (1, r"self\s*\.\s*validate_commit_identities"),
+                         (2, r"[\w.\s]*\.\s*create_snapshot"), (3, r"[\w.\s]*\.\s*merge_staged_commit")]:
+        cs = calls(pcb, callee)
+        if cs and (code >= 2 or _propagated(pcb, cs[0][0])):
+            marks.append((cs[0][0], code))
+    order = [c for _, c in sorted(marks)]
+    facts["commitCheckOrder"] = ("List Nat", "[" + ", ".join(map(str, order)) + "]",
+        "messages/commit.rs process_commit: the order of 0 validate_commit_authorization(..)?, 1 validate_commit_identities(..)?, 2 create_snapshot, 3 merge_staged_commit (a check whose result is not propagated is left out)")
+    # process_proposal: the proposal kinds that reach the proposal store (store_pending_proposal / auto_commit_proposal): 0 Add, 1 Remove, 2 Update, 3 GroupContextExtensions, 4 PreSharedKey
+    pp = arms_of(fn_body_raw(prop_rs, "process_proposal", "fn:process_proposal"))
+    KINDS = ["Add", "Remove", "Update", "GroupContextExtensions", "PreSharedKey"]
+    stored = set()
+    sites = [m.start() for m in re.finditer(r"\bself\s*\.\s*(?:store_pending_proposal|auto_commit_proposal)\s*\(", pp)]
+    if not sites:
+        raise Missing("fact:proposalKindsStored")
+    for pos in sites:
+        r = rsnorm.variants_reaching(pp, pos, KINDS, "Proposal")
+        if r is None:
+            raise Missing("fact:proposalKindsStored:unguarded")
+        stored.update(KINDS.index(v) for v in r)
+    facts["proposalKindsStored"] = ("List Nat", "[" + ", ".join(map(str, sorted(stored))) + "]",
+        "messages/proposal.rs process_proposal: the proposal kinds for which store_pending_proposal / auto_commit_proposal is reached (0 Add, 1 Remove, 2 Update, 3 GroupContextExtensions, 4 PreSharedKey); "
+        "every other kind is answered IgnoredProposal and is NOT put into the proposal store")
 
 
 def main():
@@ -917,6 +1104,9 @@ def main():
     boolean("evictionFromStagedCommit", used,
             "messages/commit.rs process_commit: whether the commit removes the receiver is read off the staged commit (self_removed()) BEFORE merge_staged_commit and "
             "decides the eviction (false = decided by own_leaf().is_none() after the merge only, which a newcomer on the freed leaf defeats)")
+
+    # ---- C05, identity sentence: the shape of validate_commit_identities / process_commit / process_proposal (Model.Identity) ----
+    identity_facts(facts, boolean, commit_rs, pcb, prop_rs)
 
     # ---- C14: tracing sites / error formats / Debug impls go to their own file GeneratedLeak.lean ----
     sys.path.insert(0, os.path.dirname(os.path.abspath(__file__)))
